@@ -2,10 +2,13 @@
 from propslib import comp_scope
 
 PROP = dict(
-    extract=["estimate", "breakwords", "topscore"],
-    lean_targets=["Chewing.Props.C08"],
-    runs=[dict(bin="learn", timeout=1200, timeout_thorough=3000)],
-    scope=comp_scope("learn"),
+    extract=["estimate", "breakwords", "topscore", "capi_user"],
+    lean_targets=["Chewing.Props.C08", "Chewing.Props.C08CApi"],
+    runs=[dict(bin="learn", timeout=1200, timeout_thorough=3000),
+          # the learning entry point of the C API (chewing_userphrase_add = Editor::learn_phrase) and the other user-phrase calls:
+          # records `capiuser …` (Driver/CApiUser.lean, Model/CApiUser.lean) + the statements of Props/C08CApi.lean on the real C context
+          dict(bin="capi_props", tag="capi_props", args=["--histories", "300", "--calls", "40"], args_thorough=["--histories", "6000", "--calls", "40"])],
+    scope=comp_scope("learn", "capiuser"),
     level="proof",
     exhaustive=False,
     rule="one evaluation = one implementation record recomputed by the model: `learn est` (estimate on a grid of all band "
